@@ -68,6 +68,29 @@ theorem unle_tagB {t : Nat} (h : t < 256 ^ 4) : unle (tagB t) = t := unle_le_of_
 
 @[simp] theorem tagB_length (t : Nat) : (tagB t).length = 4 := le_length 4 t
 
+/-! ### the two copies of the size bracket (as found in the source) do the same thing
+
+This is where a divergence between `ArchiveObject` and the non-template `ReadObject()` shows: the lists are
+regenerated from `Archiver.cpp` on every run, and everything below is proved through `bracketOf_eq`. -/
+
+theorem bracketOf_eq (m : RMode) (d size : Int) :
+    bracketOf m d size =
+      if d > size then some .readPastEnd else if d < size then some .notReadEntire else none := by
+  unfold bracketOf
+  cases m <;>
+    simp [bracket, Gen.Archive.bracketInto, Gen.Archive.bracketPoly, errOfName]
+
+/-- the form in which `readItem` uses it -/
+theorem bracket_ite {α : Type} (m : RMode) (d size : Int) (s : RS) (k : Res α) :
+    brk (bracketOf m d size) s k =
+      if d > size then .err .readPastEnd s else if d < size then .err .notReadEntire s else k := by
+  rw [bracketOf_eq]
+  by_cases h1 : d > size
+  · simp [h1, brk]
+  · by_cases h2 : d < size
+    · simp [h1, h2, brk]
+    · simp [h1, h2, brk]
+
 /-! ### honest reads: the stream starts with what the writer produced -/
 
 theorem readN_ok (cfg : Cfg) (bs tail : Bytes) (old : Option Bytes) (pos : Nat) (R : List Lbl) (F : List Nat)
